@@ -323,7 +323,7 @@ func runC17(c C17Case, ev *Evid) (fs []Finding) {
 		wg.Wait()
 		for i := range reqs {
 			if errs[i] != nil {
-				add("http-error", "GET %s (one of %d concurrent requests) failed or was not answered within 60 s: %v", reqs[i], len(reqs), errs[i])
+				add("http-error", "GET %s (one of %d concurrent requests) failed or was not answered within 45 s: %v", reqs[i], len(reqs), errs[i])
 				return
 			}
 			seq, err := get(reqs[i])
@@ -360,7 +360,7 @@ func runC17(c C17Case, ev *Evid) (fs []Finding) {
 
 // httpClient60: a request that is answered in milliseconds when issued alone must not hang for a minute
 // (a server that stops answering is reported as a failed request, not waited for indefinitely).
-var httpClient60 = &http.Client{Timeout: 60 * time.Second, Transport: &http.Transport{DisableKeepAlives: true}}
+var httpClient60 = &http.Client{Timeout: 45 * time.Second, Transport: &http.Transport{DisableKeepAlives: true}}
 
 func replaceSub(s, sub string) string {
 	out := ""
@@ -437,6 +437,15 @@ func genC17(t *rapid.T) C17Case {
 		p := rapid.IntRange(2, 24).Draw(t, "requests")
 		if rapid.IntRange(0, 3).Draw(t, "aborts") == 0 {
 			c.Aborts = rapid.IntRange(1, 3).Draw(t, "abortCount")
+		}
+		if rapid.IntRange(0, 5).Draw(t, "missingBurst") == 0 {
+			// a burst of requests for files that do not exist (each answered "not exist"): failures must not
+			// use up anything the later requests need
+			f := c.Files[0]
+			nb := rapid.IntRange(20, 60).Draw(t, "burst")
+			for i := 0; i < nb; i++ {
+				c.Requests = append(c.Requests, fmt.Sprintf("/view?file=%%SUB%%/%s/nope%d.wsp&retention=-1&from=%s&until=%s&now=%s", f.Dir, i, civilString(0), civilString(now), civilString(now)))
+			}
 		}
 		if rapid.IntRange(0, 2).Draw(t, "sameSum") == 0 {
 			// the same /sum request at several clock values, in flight together, on an item with many
